@@ -126,8 +126,17 @@ fn lossy_prefix(v: &[u8]) -> String {
     String::from_utf8_lossy(&v[..end]).into_owned()
 }
 
-fn run_podstr_n<const N: usize>(case: &Case, full: bool, out: &mut String) {
-    let mut x = PodStr::<N>::default();
+/// The value under test with guard bytes right behind it.
+#[repr(C)]
+struct Guarded<const N: usize> {
+    s: PodStr<N>,
+    guard: [u8; 16],
+}
+
+fn run_podstr_n<const N: usize>(case: &Case, full: bool, fill: u8, out: &mut String) {
+    let mut g = Box::new(Guarded::<N> { s: PodStr::<N>::default(), guard: [fill; 16] });
+    let gp: *mut Guarded<N> = &mut *g;
+    let x: &mut PodStr<N> = unsafe { &mut (*gp).s };
     out.push_str(&format!("case {}\n", case.id));
     for (i, op) in case.ops.iter().enumerate() {
         tick();
@@ -135,11 +144,11 @@ fn run_podstr_n<const N: usize>(case: &Case, full: bool, out: &mut String) {
         let arg = op.get(1).map(|s| unhex(s)).unwrap_or_default();
         let r: Option<String> = guarded(|| match name {
             "from" => {
-                x = PodStr::<N>::from(std::str::from_utf8(&arg).expect("case error"));
+                *x = PodStr::<N>::from(std::str::from_utf8(&arg).expect("case error"));
                 "U".to_string()
             }
             "fromstring" => {
-                x = PodStr::<N>::from(String::from_utf8(arg.clone()).expect("case error"));
+                *x = PodStr::<N>::from(String::from_utf8(arg.clone()).expect("case error"));
                 "U".to_string()
             }
             "copy" => {
@@ -153,6 +162,14 @@ fn run_podstr_n<const N: usize>(case: &Case, full: bool, out: &mut String) {
             "asstr" => match x.as_str() {
                 Ok(s) => format!("O{}", if s.is_empty() { "-".to_string() } else { hex(s.as_bytes()) }),
                 Err(_) => "E".to_string(),
+            },
+            "asstru" => match x.as_str() {
+                // the unchecked accessor, under its safety contract (text known to be valid)
+                Ok(_) => {
+                    let s = unsafe { x.as_str_unchecked() };
+                    format!("O{}", if s.is_empty() { "-".to_string() } else { hex(s.as_bytes()) })
+                }
+                Err(_) => "-".to_string(),
             },
             "disp" => {
                 let shown = x.to_string();
@@ -170,14 +187,14 @@ fn run_podstr_n<const N: usize>(case: &Case, full: bool, out: &mut String) {
             "load" => {
                 // from the value's own bytes, with `extra` trailing bytes
                 let extra = arg.len();
-                let mut bytes = bytes_of(&x).to_vec();
+                let mut bytes = bytes_of(&*x).to_vec();
                 bytes.extend_from_slice(&arg);
                 let l = PodStr::<N>::load(&bytes);
-                let same = l == &x && std::mem::size_of::<PodStr<N>>() == N && extra == arg.len();
+                let same = l == &*x && std::mem::size_of::<PodStr<N>>() == N && extra == arg.len();
                 (if same { "T" } else { "F" }).to_string()
             }
             "loadshort" => {
-                let bytes = bytes_of(&x).to_vec();
+                let bytes = bytes_of(&*x).to_vec();
                 let l = PodStr::<N>::load(&bytes[..N - 1]);
                 format!("O{}", hex(&l.value))
             }
@@ -190,6 +207,9 @@ fn run_podstr_n<const N: usize>(case: &Case, full: bool, out: &mut String) {
             }
             Some(res) => {
                 out.push_str(&format!("{} r={} d={:016x}", i, res, fnv(&x.value)));
+                if unsafe { (*gp).guard } != [fill; 16] {
+                    out.push_str(" g=BAD");
+                }
                 if full {
                     out.push_str(&format!(" b={}", hex(&x.value)));
                 }
@@ -200,21 +220,21 @@ fn run_podstr_n<const N: usize>(case: &Case, full: bool, out: &mut String) {
     out.push_str("end\n");
 }
 
-pub fn run_podstr(case: &Case, full: bool, _fill: u8, out: &mut String) {
+pub fn run_podstr(case: &Case, full: bool, fill: u8, out: &mut String) {
     let toks: Vec<&str> = case.header.iter().map(|s| s.as_str()).collect();
     match kvn(&toks, "n") {
-        0 => run_podstr_n::<0>(case, full, out),
-        1 => run_podstr_n::<1>(case, full, out),
-        2 => run_podstr_n::<2>(case, full, out),
-        3 => run_podstr_n::<3>(case, full, out),
-        4 => run_podstr_n::<4>(case, full, out),
-        5 => run_podstr_n::<5>(case, full, out),
-        6 => run_podstr_n::<6>(case, full, out),
-        7 => run_podstr_n::<7>(case, full, out),
-        8 => run_podstr_n::<8>(case, full, out),
-        10 => run_podstr_n::<10>(case, full, out),
-        16 => run_podstr_n::<16>(case, full, out),
-        32 => run_podstr_n::<32>(case, full, out),
+        0 => run_podstr_n::<0>(case, full, fill, out),
+        1 => run_podstr_n::<1>(case, full, fill, out),
+        2 => run_podstr_n::<2>(case, full, fill, out),
+        3 => run_podstr_n::<3>(case, full, fill, out),
+        4 => run_podstr_n::<4>(case, full, fill, out),
+        5 => run_podstr_n::<5>(case, full, fill, out),
+        6 => run_podstr_n::<6>(case, full, fill, out),
+        7 => run_podstr_n::<7>(case, full, fill, out),
+        8 => run_podstr_n::<8>(case, full, fill, out),
+        10 => run_podstr_n::<10>(case, full, fill, out),
+        16 => run_podstr_n::<16>(case, full, fill, out),
+        32 => run_podstr_n::<32>(case, full, fill, out),
         n => panic!("PodStr<{}> not instantiated", n),
     }
 }
